@@ -60,7 +60,7 @@ class AGen(progs.Gen):
             return p
         if op in ('timed_window', 'timed_window_unique'):
             u = self._pick_up()
-            params = {'interval': r.choice(INT_GRID)}
+            params = {'interval': r.choice(INT_GRID), 'ival_str': r.random() < 0.25}
             if op == 'timed_window_unique':
                 params['key'] = r.choice(['ident', 'mod2', 'mod3', 'fsum'])
                 params['keep'] = r.choice(['first', 'last'])
@@ -74,9 +74,9 @@ class AGen(progs.Gen):
         if op == 'buffer':
             return self._new('buffer', [u], K[u], n=r.choice([1, 1, 2, 3, 5]))
         if op == 'delay':
-            return self._new('delay', [u], K[u], interval=r.choice([0.25] + INT_GRID))
+            return self._new('delay', [u], K[u], interval=r.choice([0.25] + INT_GRID), ival_str=r.random() < 0.25)
         if op == 'rate_limit':
-            return self._new('rate_limit', [u], K[u], interval=r.choice([0.25] + INT_GRID))
+            return self._new('rate_limit', [u], K[u], interval=r.choice([0.25] + INT_GRID), ival_str=r.random() < 0.25)
         if op == 'latest':
             return self._new('latest', [u], K[u])
         if op == 'map_async':
